@@ -23,6 +23,20 @@ Sub-check `batchings` (differential; the B = 1 decode of an instance is the refe
     (the actions of every path are observed through the spy).  Multi-start greedy (k forced start nodes, start-major
     row layout) is an extra decode mode on the envs whose start-node selection is deterministic.
 
+    Decoding options (optional case key `dec`; every zoo key decoded by ConstructivePolicy.forward, i.e. all but the pointer
+    network / MultiStageFFSPPolicy / MDAM whose own loops do not document them): top_k in {2, 3}, top_p in {0.6, 0.9},
+    temperature in {0.5, 2} are handed as keyword arguments, IDENTICALLY, to every decode of the case (B = 1, full batch, chunks,
+    next to mates; greedy and multi-start greedy).  The documented filters act per row (process_logits: "restrict sampling to
+    the top k logits", nucleus per distribution), so the answer of an instance must still not depend on its batch-mates.  The
+    reference loop replays the B = 1 decode under the same options (log-probs of the filtered, renormalised distribution) and
+    also returns, per step, whether the kept set hinges on float rounding (cross-layout band BAND_X of vf/models/decode.py:
+    near-tie at the k-th value / at the nucleus cut; plus exact ties at the k-th value, which rounding may break in another
+    batch): per-step log-probs are compared up to the first such step, the summed log-likelihood of an episode containing one
+    is don't-care; actions and rewards are compared as without options (a filter never removes the most probable action).
+    With top_k > 0 the real batches are measured (forward hook on the decoder: feasible actions per row and step): counters
+    topk:* give the steps at which some instance has a row with < k feasible actions while another instance has one with > k
+    (rows finishing / being forced at different steps: variable-length envs get top_k > 0 in 1/2 of their cases).
+
 Sub-check `eval_chunking`: rl4co.tasks.eval.evaluate_policy(env, policy, dataset, method="greedy", batch_size=bs)
     for a batch size dividing the dataset size and one that does not: N rows each, in dataset order, same actions
     (decisive rule, zero padding stripped) and rewards as the B = 1 decode of every instance and as each other.
@@ -48,7 +62,7 @@ import torch
 import torch.nn as nn
 
 from ..envs import SPECS
-from ..models.decode import reference_logprobs, reference_ptrnet
+from ..models.decode import ref_log_softmax, reference_logprobs, reference_ptrnet
 from ..policies import (INFO, OPT_KEYS, ZOO, DeterministicMatNetInit, build_policy, default_env, family, resolve_setup,
                         setup_dims, setup_events, small_cfg, to_double)
 from ..runner import Sub, h64
@@ -70,7 +84,11 @@ RULE = (
     "built for another size, env=None / by name, constructor switches of am/am_pomo/symnco incl. the library's simple "
     "scaled-dot-product attention, mask_inner, biases, check_nan, feedforward_hidden, constructor temperature / "
     "tanh_clipping (vf.policies.setup_dims); zoo variants polynet_matnet/atsp, l2d_stepwise/jssp|fjsp, mvmoe_k1 | "
-    "mvmoe_kall | mvmoe_enc/mtvrp, nar/tsp, MDAM with 2 or 3 paths. eval_chunking: case = (am|am_pomo x tsp|cvrp|sdvrp|op, dataset size 4-12, n 4-8, seeds, "
+    "mvmoe_kall | mvmoe_enc/mtvrp, nar/tsp, MDAM with 2 or 3 paths. Decoding options (optional key dec; counters dec:* / "
+    "filter:* / topk:*): top_k 0 | 2 | 3 (non-zero in 1/2 of the cases on the variable-length envs cvrp, sdvrp, cvrptw, pctsp, "
+    "spctsp, op, mtvrp, svrp, 1/4 elsewhere), top_p 0 | 0.6 | 0.9 (1/3), temperature 1 | 0.5 | 2 (1/3), passed as keyword "
+    "arguments identically to every decode of the case (all zoo keys but ptrnet / matnet_ffsp / mdam); topk:* counts, in the "
+    "real B > 1 batches, the steps where some instance has < k feasible actions and another > k. eval_chunking: case = (am|am_pomo x tsp|cvrp|sdvrp|op, dataset size 4-12, n 4-8, seeds, "
     "spread <= 1.75, a dividing and a non-dividing loader batch size, dataset class); non-trivial = some fully "
     "decisive instance and >= 2 loader batches with a partial last one. Decisive fractions are event counters."
 )
@@ -94,6 +112,14 @@ ASSUMPTIONS = [
     "C12's business); op / svrp (F17 / F18), smtwtp, mdcpdp (F45), job shops (random starts) are not decoded multi-start here",
     "environment reset/step are per-row (C04's business); every batch is reset from its own instance rows, the way "
     "a data loader would feed it",
+    "decoding options top_k / top_p / temperature are the documented **decoding_kwargs of ConstructivePolicy.forward "
+    "(DecodingStrategy / process_logits docstrings: filters follow masking and temperature, precede the softmax, act on each "
+    "row's distribution); top_p >= 0.6, so a runner-up within rounding of the best action is always kept and the filtered "
+    "top-2 gap of the reference stays the argmax-stability gap; steps whose kept set is ambiguous under float rounding "
+    "(vf/models/decode.py ambig_x: relative band 2e-3 around the k-th value / the nucleus cut) or exactly tied at the k-th "
+    "value are don't-care for the log-likelihood from that step on (summed: the episode); a float32 log-likelihood mismatch "
+    "under a filter is adjudicated in float64 whatever its size (a flipped kept set is O(1)); policies that cannot run in "
+    "float64 are judged directly",
     "MultiStageFFSPPolicy (own loop, summed log-likelihood only, decode type from test_decode_type='greedy'): random "
     "one-hot init of every stage encoder replaced by DeterministicMatNetInit (asserted); per-step gaps of the B=1 decode "
     "from vf/models/ffsp_ref.py; it collects step log-probs in a float32 buffer, so the float64 slice / adjudication "
@@ -129,6 +155,15 @@ ADJ_CAP = 1e-2
 # unchanged tree, identical decodes in float64): mismatches up to 5e-2 go to the float64 adjudication run, which still
 # asserts 1e-9 / 1e-6 and therefore still shows any genuine coupling of batch rows
 ADJ_CAP_FFSP = 5e-2
+# decoding options (documented **decoding_kwargs of ConstructivePolicy.forward -> DecodingStrategy: top_k, top_p,
+# temperature) are drawn for every zoo key decoded through ConstructivePolicy.forward; the own loops of the pointer network,
+# MultiStageFFSPPolicy and MDAM do not document them
+NO_DEC_KEYS = ("ptrnet", "matnet_ffsp", "mdam")
+# envs whose rows finish at different steps / are forced back to a depot: with top_k > 0 a batch of them regularly has a
+# step where one row has fewer than k feasible actions and another more (the shape under which a filter that looks at the
+# whole batch instead of the row shows); top_k > 0 is drawn for 1/2 of their cases, 1/4 elsewhere
+VARLEN_ENVS = ("cvrp", "sdvrp", "cvrptw", "pctsp", "spctsp", "op", "mtvrp", "svrp")
+DEC_DEFAULT = {"top_k": 0, "top_p": 0.0, "temperature": 1.0}
 
 
 # --------------------------------------------------------------------------- strategy
@@ -180,6 +215,20 @@ def cases(draw, tier="quick"):
     if key not in ("mdam", "matnet_ffsp") and envn not in ("dpp", "mdpp"):
         base = env_cfg(envn, n, case["variant"])
         case.update(draw(setup_dims(key, envn, n, base, M + case["n_mates"], tier, opts=key in OPT_KEYS)))
+    # ---- decoding options, handed IDENTICALLY to every decode of the case (optional key `dec`: absent = none given)
+    if key not in NO_DEC_KEYS:
+        dec = {}
+        tk = draw(st.sampled_from([0, 2, 0, 3, 0, 3] if envn in VARLEN_ENVS else [0, 0, 2, 0, 0, 3, 0, 0]))
+        tp = draw(st.sampled_from([0.0, 0.0, 0.6, 0.0, 0.9, 0.0]))
+        tt = draw(st.sampled_from([1.0, 1.0, 0.5, 1.0, 2.0, 1.0]))
+        if tk:
+            dec["top_k"] = tk
+        if tp:
+            dec["top_p"] = tp
+        if tt != 1.0:
+            dec["temperature"] = tt
+        if dec:
+            case["dec"] = dec
     return case
 
 
@@ -217,7 +266,10 @@ def minimize(case):
     if len(rows) > 1:
         for j in range(len(rows)):
             yield {**c, "rows": rows[:j] + rows[j + 1:]}
-    for key in ("lat", "ecfg", "env_shape", "env_via", "opts"):
+    if c.get("dec") and len(c["dec"]) > 1:
+        for kk in c["dec"]:
+            yield {**c, "dec": {k2: v2 for k2, v2 in c["dec"].items() if k2 != kk}}
+    for key in ("lat", "ecfg", "env_shape", "env_via", "opts", "dec"):
         if key in c and not (key == "ecfg" and "lat" in c):
             d = {kk: vv for kk, vv in c.items() if kk != key}
             if key == "lat":
@@ -309,6 +361,11 @@ def mdam_spy(record):
         D.get_log_likelihood = orig
 
 
+def dec_tag(dec):
+    """Signature suffix naming the decoding options in force (values left out: stable signatures)."""
+    return "".join("+" + kk for kk in sorted(dec)) if dec else ""
+
+
 class InfeasibleStart(Exception):
     """A forced multistart first move is not in the reset mask of its instance (C12's business): the case is excluded."""
 
@@ -323,13 +380,19 @@ class Rec:
 class Runner:
     """Decodes batches of pool rows with one policy and splits the outputs per slot."""
 
-    def __init__(self, ctx, key, envn, env, policy, pool, mode, k, f64, n, env_via="object"):
+    def __init__(self, ctx, key, envn, env, policy, pool, mode, k, f64, n, env_via="object", dec=None, count=True):
         self.ctx, self.key, self.envn, self.env, self.policy, self.pool = ctx, key, envn, env, policy, pool
         self.mode, self.f64 = mode, f64
+        # decoding options of the case: passed as keyword arguments to EVERY policy call, never changed between batchings
+        self.dec = {kk: (int(v) if kk == "top_k" else float(v)) for kk, v in (dec or {}).items()}
+        assert not self.dec or key not in NO_DEC_KEYS
+        assert set(self.dec) <= set(DEC_DEFAULT)
+        self.hetero_batches = 0
+        self.count = count  # emit the generator-measurement counters (off in the float64 adjudication re-run)
         self.k = None if k is None else int(k)  # None: num_starts not passed (the env's default number of starts)
         self.K = int(policy.decoder.num_paths) if key == "mdam" else (self.k if mode == "multistart_greedy" else 1)
         self.max_steps = 6 * n + 40
-        self.slice = f"{key}/{envn}|{mode}"
+        self.slice = f"{key}/{envn}|{mode}{dec_tag(self.dec)}"
         # what the policy is handed as env: the object, or None / the name (it then builds get_env(name) itself; self.env
         # is the harness' own default-constructed env of that name)
         self.env_arg = {"object": env, "none": None, "name": envn}[env_via]
@@ -377,9 +440,42 @@ class Runner:
                     if ks < 2 or a0.shape[0] != m0.shape[0] or int(a0.max()) >= m0.shape[1] or int(a0.min()) < 0 \
                             or not bool(m0.gather(1, a0.view(-1, 1)).all()):
                         raise InfeasibleStart()
-                out = self.ctx.guard(self.policy, td.clone(), self.env_arg, what=what, **kw)
+                kw.update(self.dec)
+                nfeas_steps, hook = [], None
+                if self.dec.get("top_k") and self.count and B > 1 and isinstance(self.policy.decoder, nn.Module):
+                    # generator measurement only: feasible actions per row and step of the real batch (the mask the decoder
+                    # hands to the decoding strategy); the policy object is cached, so the hook is removed right away
+                    hook = self.policy.decoder.register_forward_hook(
+                        lambda mod, args, res: nfeas_steps.append(res[1].detach().sum(-1)))
+                try:
+                    out = self.ctx.guard(self.policy, td.clone(), self.env_arg, what=what, **kw)
+                finally:
+                    if hook is not None:
+                        hook.remove()
+                if nfeas_steps:
+                    self.topk_classes(nfeas_steps, B)
         self.policy.eval()  # (the pointer network switches its own mode from `phase`)
         return self.split(out, B, bl, rec_mdam), td, out, rec_mdam
+
+    def topk_classes(self, steps, B):
+        """Class counters of a B > 1 decode with top_k = k > 0: steps at which some instance has a row with fewer than k
+        feasible actions while ANOTHER instance has a row with more than k (rows r = s*B + p belong to instance p)."""
+        k = self.dec["top_k"]
+        n = torch.stack([x.reshape(-1) for x in steps], 0)  # [T,R]
+        T, R = n.shape
+        if R % B:
+            return
+        n = n.view(T, R // B, B)
+        lo, hi = n.min(1).values < k, n.max(1).values > k  # [T,B] per instance
+        het = lo.any(-1) & hi.any(-1) & ~((lo.sum(-1) == 1) & (hi.sum(-1) == 1) & ((lo & hi).sum(-1) == 1))
+        ctx = self.ctx
+        ctx.event("topk:decoded_batches(B>1)")
+        ctx.event("topk:batch_steps", T)
+        ctx.event("topk:batch_steps_some_row<k_feasible_and_another_instance>k", int(het.sum()))
+        if bool(het.any()):
+            ctx.event("topk:decoded_batches_with_such_a_step")
+            ctx.event(f"topk:decoded_batches_with_such_a_step|{self.envn}")
+            self.hetero_batches += 1
 
     def split(self, out, B, bl, rec_mdam):
         ctx, K = self.ctx, self.K
@@ -417,7 +513,8 @@ class Runner:
         return recs
 
     def reference(self, td_solo, out, rec_mdam_solo=None):
-        """Per row of the solo decode: episode length L, top-2 gaps [L], number of feasible actions [L]."""
+        """Per row of the solo decode: episode length L, top-2 gaps [L], number of feasible actions [L], and - with a
+        top-k / top-p filter among the decoding options - dict(amb=kept set ambiguous [L] bool, nkept=[L]) else None."""
         A = out["actions"]
         if self.key == "mdam":
             Ls, gaps, nfe = [], [], []
@@ -430,11 +527,11 @@ class Runner:
                 Ls.append(T)
                 gaps.append(g)
                 nfe.append((lp > -math.inf).sum(-1))
-            return Ls, gaps, nfe
+            return Ls, gaps, nfe, None
         if self.key == "ptrnet":
             ref = reference_ptrnet(self.policy, td_solo, A)
             self.policy.eval()
-            return [A.shape[1]], [ref.gap[0]], [ref.nfeas[0]]
+            return [A.shape[1]], [ref.gap[0]], [ref.nfeas[0]], None
         if self.key == "matnet_ffsp":
             from ..models.ffsp_ref import reference_ffsp
             ref = self.ctx.guard(reference_ffsp, self.policy, self.env, td_solo.select("run_time"), A, num_starts=1,
@@ -443,17 +540,38 @@ class Runner:
             self.ctx.check(ref.all_done_at == T and bool(ref.in_mask.all()), f"solo_episode|{self.slice}",
                            f"B=1 decode returned {T} steps but replaying them finishes after {ref.all_done_at} "
                            f"(all actions inside the mask: {bool(ref.in_mask.all())})")
-            return [T], [ref.gap[0]], [ref.nfeas[0]]
+            return [T], [ref.gap[0]], [ref.nfeas[0]], None
         ms = self.mode == "multistart_greedy"
         ref = self.ctx.guard(reference_logprobs, self.policy, self.env, td_solo, A, num_starts=self.K if ms else 0,
-                             forced_first=ms, what=f"reference_loop|{self.slice}|B=1")
+                             forced_first=ms, temperature=self.dec.get("temperature"), top_k=self.dec.get("top_k", 0),
+                             top_p=self.dec.get("top_p", 0.0), keep_tables=bool(self.dec.get("top_k")),
+                             what=f"reference_loop|{self.slice}|B=1")
         T = A.shape[1]
         Ls = [min(int(x), T) for x in ref.done_at.tolist()]
         # the solo loop runs until every row of the solo call is done: the slowest row ends exactly at T
         self.ctx.check(ref.all_done_at == T and bool(ref.in_mask.all()), f"solo_episode|{self.slice}",
                        f"B=1 decode returned {T} steps but replaying them finishes after {ref.all_done_at} "
                        f"(all actions inside the mask: {bool(ref.in_mask.all())})")
-        return Ls, [ref.gap[r, :Ls[r]] for r in range(len(Ls))], [ref.nfeas[r, :Ls[r]] for r in range(len(Ls))]
+        rr = range(len(Ls))
+        if not (self.dec.get("top_k") or self.dec.get("top_p")):
+            return Ls, [ref.gap[r, :Ls[r]] for r in rr], [ref.nfeas[r, :Ls[r]] for r in rr], None
+        # filters on: gaps / log-probs refer to the filtered, renormalised step distribution; `amb` = the kept set of the step
+        # hinges on float rounding (cross-layout band BAND_X of vf/models/decode.py), `nkept` = entries surviving the filters
+        amb = ref.ambig_x.clone()
+        if self.dec.get("top_k"):
+            # an EXACT tie at the k-th value (all tied entries are kept: more than k survive top-k) is stable between the
+            # reference and the code on the same logits, but not between two batchings, whose logits differ by rounding and
+            # may break the tie: exact ties are don't-care
+            kk = self.dec["top_k"]
+            for t, tab in enumerate(ref.tables):
+                if tab is None or tab["logits"].shape[1] <= kk:
+                    continue
+                lp = ref_log_softmax(tab["logits"], tab["mask"], self.dec.get("temperature", float(self.policy.temperature)),
+                                     float(self.policy.tanh_clipping))
+                kth = torch.topk(lp, kk, dim=-1).values[:, -1:]
+                amb[:, t] |= ((lp >= kth) & (lp > -math.inf)).sum(-1) > kk
+        flt = dict(amb=[amb[r, :Ls[r]] for r in rr], nkept=[ref.nkept[r, :Ls[r]] for r in rr])
+        return Ls, [ref.gap[r, :Ls[r]] for r in rr], [ref.nfeas[r, :Ls[r]] for r in rr], flt
 
 
 class Issue:
@@ -461,24 +579,36 @@ class Issue:
         self.sig, self.msg, self.detail, self.soft = sig, msg, detail, soft
 
 
-def compare(solo, Ls, gaps, rec, slice_, label, f64, issues, where, ll_cast32=False, loose32=False):
+def compare(solo, Ls, gaps, rec, slice_, label, f64, issues, where, ll_cast32=False, loose32=False, flt=None):
     """Compare one batching's record of an instance with its B=1 record (argmax-stability rule).
     Returns (rows compared on a fully decisive episode).
     loose32: float32 run of a policy that cannot be adjudicated in float64 (hard-coded float32 inside) decoded in the
     multi-start layout: the [batch, starts] regrouping is a second layout change on top of the batch size, float32 noise
     was measured at 1.14e-4 on the MoE decoder at spread 2 (unchanged tree) -> decisive threshold and tolerance 1e-3
-    (the cross-layout figure of C11; a coupling of batch rows is O(1e-2..1))."""
+    (the cross-layout figure of C11; a coupling of batch rows is O(1e-2..1)).
+    flt: the case decodes with a top-k / top-p filter; flt["amb"][r] [L] bool marks the steps of the B=1 episode whose kept
+    set hinges on float rounding.  Per-step log-probs are then compared up to the first such step only, and the summed
+    log-likelihood of an episode containing one is don't-care (actions and reward are compared as ever: a filter never
+    removes the most probable action).  A float32 log-likelihood mismatch under a filter may be a flipped kept set, whose
+    size is O(1) whatever the rounding that caused it: it is always adjudicated in float64 (where rounding is 1e-11 against
+    the 2e-3 band) when the policy can be run in float64, never accepted."""
     thr = 1e-8 if f64 else (1e-3 if loose32 else 1e-4)
     atol, rtol = (1e-9, 1e-10) if f64 else ((1e-3, 1e-5) if loose32 else (1e-4, 1e-5))
     if f64 and ll_cast32:
         atol, rtol = 1e-6, 1e-6
     rrel = 1e-10 if f64 else 1e-5
     cap = 0.0 if f64 else (ADJ_CAP_FFSP if ll_cast32 else ADJ_CAP)
+    cap_ll = cap if (flt is None or f64) else math.inf
     for r in range(len(Ls)):
         L = Ls[r]
         gap = gaps[r]
         nd = (~(gap > thr)).nonzero().flatten()
         d = int(nd[0]) if nd.numel() else L
+        d_ll, amb_any = d, False
+        if flt is not None:
+            na = flt["amb"][r][:L].nonzero().flatten()
+            amb_any = bool(na.numel())
+            d_ll = min(d, int(na[0])) if amb_any else d
         a_s, a_b = solo.actions[r][:L], rec.actions[r]
         tag = f"{where} row {r}"
         if a_b.shape[0] < d:
@@ -493,25 +623,25 @@ def compare(solo, Ls, gaps, rec, slice_, label, f64, issues, where, ll_cast32=Fa
                                 f"{tag}: greedy action at step {t} is {int(a_b[t])} in the batch, {int(a_s[t])} at B=1 "
                                 f"(top-2 gap {g:.3e})", {"solo": a_s, "batched": a_b, "gap": gap}, g < cap))
             continue
-        if solo.ll_steps[r] is not None and rec.ll_steps[r] is not None and d > 0:
-            dl = (rec.ll_steps[r][:d] - solo.ll_steps[r][:d]).abs()
+        if solo.ll_steps[r] is not None and rec.ll_steps[r] is not None and d_ll > 0:
+            dl = (rec.ll_steps[r][:d_ll] - solo.ll_steps[r][:d_ll]).abs()
             if bool((dl > atol).any()):
                 m = float(dl.max())
                 issues.append(Issue(f"ll_steps|{slice_}|{label}",
                                     f"{tag}: per-step log-prob of the same action differs by {m:.3e} "
                                     f"(step {int(dl.argmax())})",
-                                    {"solo": solo.ll_steps[r][:L], "batched": rec.ll_steps[r], "actions": a_s}, m < cap))
+                                    {"solo": solo.ll_steps[r][:L], "batched": rec.ll_steps[r], "actions": a_s}, m < cap_ll))
                 continue
         seq_equal = a_b.shape[0] >= L and torch.equal(a_b[:L], a_s)
         if not seq_equal:
             continue  # (d < L: diverged at or after a non-decisive step - don't care)
         x, y = float(solo.ll_sum[r]), float(rec.ll_sum[r])
-        if not abs(x - y) <= atol + rtol * abs(x):
+        if not amb_any and not abs(x - y) <= atol + rtol * abs(x):
             pad = "padded" if a_b.shape[0] > L else "unpadded"
             issues.append(Issue(f"ll_sum|{slice_}|{label}|{pad}",
                                 f"{tag}: log-likelihood {y!r} in the batch ({a_b.shape[0]} steps incl. padding), {x!r} at B=1 "
                                 f"({L} steps) for the same actions", {"actions": a_s, "batched_actions": a_b},
-                                abs(x - y) < cap * (1 + abs(x))))
+                                abs(x - y) < cap_ll * (1 + abs(x))))
         x, y = float(solo.reward[r]), float(rec.reward[r])
         if not abs(x - y) <= rrel * (1 + abs(x)):
             issues.append(Issue(f"reward|{slice_}|{label}", f"{tag}: reward {y!r} in the batch, {x!r} at B=1 for the same "
@@ -586,8 +716,15 @@ def execute(case, ctx, adjudication=False):
         return
     f64 = bool(case["f64"])
     mode, k = case["mode"], (None if case["k"] is None else int(case["k"]))
-    slice_ = f"{key}/{envn}|{mode}"
+    dec = case.get("dec") or {}
+    slice_ = f"{key}/{envn}|{mode}{dec_tag(dec)}"
     if not adjudication:
+        if key not in NO_DEC_KEYS:
+            ctx.event("dec:" + ("options" + dec_tag(dec) if dec else "none"))
+            for kk, v in sorted(dec.items()):
+                ctx.event(f"dec:{kk}={v}")
+            if dec.get("top_k"):
+                ctx.event(f"dec:top_k>0|{'variable_length_env' if envn in VARLEN_ENVS else 'other_env'}")
         ctx.event(f"zoo:{key}/{envn}")
         ctx.event(f"mode:{mode}")
         if mode != "greedy":
@@ -629,7 +766,8 @@ def _run(case, ctx, adjudication, key, envn, f64, mode, k, slice_):
     pool = torch.cat([inst, mates], 0) if same_shape else inst
     policy = make_policy(key, envn, env, case, f64)
     policy.eval()
-    run = Runner(ctx, key, envn, env, policy, pool, mode, k, f64, case["n"], env_via)
+    run = Runner(ctx, key, envn, env, policy, pool, mode, k, f64, case["n"], env_via, dec=case.get("dec"),
+                 count=not adjudication)
 
     # ---- (a) one by one: the reference answers
     solo, refs = {}, {}
@@ -660,10 +798,11 @@ def _run(case, ctx, adjudication, key, envn, f64, mode, k, slice_):
             for p, i in enumerate(idx):
                 if i >= M:
                     continue
-                Ls, gaps, _ = refs[i]
+                Ls, gaps, _, flt = refs[i]
                 compare(solo[i], Ls, gaps, recs[p], slice_, label, f64, issues,
-                        f"instance {i} at position {p} of batch {idx}", ll_cast32=key in LL_CAST32,
-                        loose32=(not f64 and mode != "greedy" and family(key) in NO_F64))
+                        f"instance {i} at position {p} of batch {idx}" + (f" (decoding options {run.dec})" if run.dec else ""),
+                        ll_cast32=key in LL_CAST32,
+                        loose32=(not f64 and mode != "greedy" and family(key) in NO_F64), flt=flt)
                 seen[i].add(tuple(idx))
                 if any(recs[p].actions[r].shape[0] > Ls[r] for r in range(len(Ls))):
                     padded_rows += 1
@@ -676,7 +815,16 @@ def _run(case, ctx, adjudication, key, envn, f64, mode, k, slice_):
     thr = 1e-8 if f64 else 1e-4
     nontriv = False
     for i in rows:
-        Ls, gaps, nfe = refs[i]
+        Ls, gaps, nfe, flt = refs[i]
+        if flt is not None:
+            amb = sum(int(flt["amb"][r].sum()) for r in range(len(Ls)))
+            ctx.event("filter:steps_multi_choice", sum(int((nfe[r] >= 2).sum()) for r in range(len(Ls))))
+            ctx.event("filter:steps_where_it_removes_a_feasible_action",
+                      sum(int((flt["nkept"][r] < nfe[r]).sum()) for r in range(len(Ls))))
+            ctx.event("filter:steps_kept_set_ambiguous(dont_care)", amb)
+            ctx.event("filter:episodes")
+            if amb:
+                ctx.event("filter:episodes_with_ambiguous_step(summed_ll_dont_care)")
         full = all(bool((gaps[r] > thr).all()) for r in range(len(Ls)))
         multi = sum(int(((nfe[r] >= 2) & torch.isfinite(gaps[r])).sum()) for r in range(len(Ls)))
         dec = sum(int(((nfe[r] >= 2) & torch.isfinite(gaps[r]) & (gaps[r] > thr)).sum()) for r in range(len(Ls)))
@@ -691,10 +839,14 @@ def _run(case, ctx, adjudication, key, envn, f64, mode, k, slice_):
                 nontriv = True
     if padded_rows:
         ctx.event("rows_compared_with_post_finish_padding", padded_rows)
+    if run.dec.get("top_k") and len(rows) > 1:
+        ctx.event("topk:cases")
+        if run.hetero_batches:
+            ctx.event("topk:cases_with_a_step_some_row<k_feasible_and_another_instance>k")
     if nontriv:
         ctx.nontriv()
     i0 = rows[0]
-    ctx.sample({"zoo": case["zoo"], "mode": mode, "k": k, "n": case["n"], "rows": rows, "f64": f64,
+    ctx.sample({"zoo": case["zoo"], "mode": mode, "k": k, "n": case["n"], "rows": rows, "f64": f64, "dec": case.get("dec"),
                 "batchings": {lab: b for lab, b in batchings}, "solo_actions_row0": solo[i0].actions[0].tolist(),
                 "solo_ll_row0": float(solo[i0].ll_sum[0])})
 
@@ -780,13 +932,13 @@ def execute_eval(case, ctx):
             rec.ll_steps.append(None)
             rec.ll_sum.append(solo[i].ll_sum[0])  # evaluation does not report log-likelihoods
             rec.reward.append(rew[i].double())
-            Ls, gaps, _ = refs[i]
+            Ls, gaps, _, _ = refs[i]
             compare(solo[i], Ls, gaps, rec, slice_, f"eval_{name}", False, issues, f"dataset row {i} (batch_size={bs})")
     # direct comparison of the two chunkings on fully decisive instances
     nontriv = False
     (A1, r1), (A2, r2) = results["bs_div"], results["bs_nondiv"]
     for i in range(N):
-        Ls, gaps, nfe = refs[i]
+        Ls, gaps, nfe, _ = refs[i]
         L = Ls[0]
         ctx.event("episodes")
         if bool((gaps[0] > 1e-4).all()):
@@ -816,8 +968,8 @@ def preimport():
 SUBS = [
     # quick budget 592 (was 640): the round-3b dimensions (default-count multi-start rows, wait-allowed job shops, policy
     # variants) cost ~30 % more CPU per case set; rebalanced to stay within +25 % of the previous quick tier
-    Sub("batchings", execute, strategy=lambda tier: cases(tier), budget={"quick": 592, "thorough": 8000}, shards=16,
+    Sub("batchings", execute, strategy=lambda tier: cases(tier), budget={"quick": 1776, "thorough": 8000}, shards=16,
         shrink=False, minimize=minimize, weight=2.0),
-    Sub("eval_chunking", execute_eval, strategy=lambda tier: eval_cases(tier), budget={"quick": 128, "thorough": 1600},
+    Sub("eval_chunking", execute_eval, strategy=lambda tier: eval_cases(tier), budget={"quick": 384, "thorough": 1600},
         shards=8, shrink=False, minimize=eval_minimize),
 ]
